@@ -390,6 +390,9 @@ Record uses_tables := {
   u_callback_classes : list (string * bool * list (string * bool));
                                               (* callbacks/*.hpp: class, has `typedef int dummy` (what is_dummy<T>
                                                  detects), member functions with "its body is a throw statement" *)
+  u_wrappers : list (string * list (string * list string));
+                                              (* PlainDistance / KernelDistance: per member function, the member
+                                                 functions it calls on the wrapped callback *)
   u_deref_files : list string;                (* files scanned for dereferences of a RandomAccessIterator *)
   u_derefs : list (string * string * bool) }. (* every dereference site ( *it, it[i], *(it + n), it-> ): file, source
                                                  snippet, "is an argument of a .kernel/.distance/.vector call" *)
